@@ -22,6 +22,8 @@ def run(P, R, L):
     R.clause("ORD-9", "in make_room_for_write the memtable swap and the store of the old memtable into maybe_immutable_memtable "
              "lie in one held region with no release point between them; set_wal dominates the swap")
     K.ord9_rotation(P, R, L)
+    R.clause("PAIR-6", "group commit membership: a queued writer is marked as the group's last writer only after its batch was appended")
+    K.pair6_group_membership(P, R, L)
     R.clause("ORD-3", "the flush installs the new version (log_and_apply succeeded) before it drops the immutable memtable")
     K.ord3_flush(P, R, L)
     R.clause("PAIR-2", "followers popped by the leader receive the group's result before they are notified, and the leader's "
